@@ -5,11 +5,13 @@
   between Fun states and Core states such that from related states either the Fun machine stops
   after finitely many silent steps (and the Core machine stops with the same result if the result is
   one the properties speak about), or both machines advance to related states emitting the same
-  output, yields the forward half of `ObsSame`.
+  output, yields the forward half of `ObsSame`.  (The backward half, SemBack.lean, uses the `cpos`
+  component of a chunk: the Core machine advances or the Fun machine arrives at a smaller term.)
   Proof file; nothing here is executable model code.
 -/
 import Scc.Fun.Sem
 import Scc.Core.Sem
+import Scc.Fun2Core.Size
 
 namespace Scc.Fun2Core.Sem
 open Scc
@@ -146,39 +148,60 @@ def FinalAlt (p : Fun.CheckedProgram) (q : Core.Prog) (s : Fun.State) (S : Core.
     (Finished r → ∃ i S1 r', CSteps q S S1 i ∧ S1.out = S.out ∧ Core.step q S1 = .final r' ∧
       ResMatch r r')
 
+/-- the size of the term under evaluation (0 for the other states): the measure that decreases in
+the chunks without a Core step -/
+def msize : Fun.State → Nat
+  | .eval t _ _ => funSize t
+  | _ => 0
+
 /-- both machines advance to related states: the Fun machine by `j` silent steps and possibly one
-more step (which may print), the Core machine by any number of steps, emitting the same -/
+more step (which may print), the Core machine by any number of steps, emitting the same.
+`strict`: the Fun machine really advances; `cpos`: the Core machine really advances, or the Fun
+machine arrives at the evaluation of a term smaller than `μ` -/
 def ContAlt (p : Fun.CheckedProgram) (q : Core.Prog) (R : Fun.State → Core.State → Prop)
-    (strict : Bool) (s : Fun.State) (S : Core.State) : Prop :=
+    (strict cpos : Bool) (μ : Nat) (s : Fun.State) (S : Core.State) : Prop :=
   ∃ j s1 s' o i S', FSteps p s s1 [] j ∧ Last p s1 s' o ∧ (strict = true → 1 ≤ j ∨ s' ≠ s1 ∨ o ≠ []) ∧
+    (cpos = true → 1 ≤ i ∨ msize s' < μ) ∧
     CSteps q S S' i ∧ S'.out = S.out ++ o ∧ R s' S'
 
-/-- one chunk from the pair `(s, S)`; `strict`: the Fun machine really advances -/
+/-- one chunk from the pair `(s, S)` -/
 def Chunk (p : Fun.CheckedProgram) (q : Core.Prog) (R : Fun.State → Core.State → Prop)
-    (strict : Bool) (s : Fun.State) (S : Core.State) : Prop :=
-  FinalAlt p q s S ∨ ContAlt p q R strict s S
+    (strict cpos : Bool) (μ : Nat) (s : Fun.State) (S : Core.State) : Prop :=
+  FinalAlt p q s S ∨ ContAlt p q R strict cpos μ s S
 
 def ChunkSim (p : Fun.CheckedProgram) (q : Core.Prog) (R : Fun.State → Core.State → Prop) : Prop :=
-  ∀ s S, R s S → Chunk p q R true s S
+  ∀ s S, R s S → Chunk p q R true true (msize s) s S
 
-theorem Chunk.weaken {p q R s S} (h : Chunk p q R true s S) : Chunk p q R false s S := by
-  rcases h with h | ⟨j, s1, s', o, i, S', h1, h2, _, h4, h5, h6⟩
+theorem Chunk.weaken {p q R c μ s S} (h : Chunk p q R true c μ s S) : Chunk p q R false c μ s S := by
+  rcases h with h | ⟨j, s1, s', o, i, S', h1, h2, _, h3, h4, h5, h6⟩
   · exact .inl h
-  · exact .inr ⟨j, s1, s', o, i, S', h1, h2, (fun h => by cases h), h4, h5, h6⟩
+  · exact .inr ⟨j, s1, s', o, i, S', h1, h2, (fun h => by cases h), h3, h4, h5, h6⟩
+
+theorem Chunk.weakenC {p q R b c μ μ' s S} (h : Chunk p q R b c μ s S) : Chunk p q R b false μ' s S := by
+  rcases h with h | ⟨j, s1, s', o, i, S', h1, h2, h0, _, h4, h5, h6⟩
+  · exact .inl h
+  · exact .inr ⟨j, s1, s', o, i, S', h1, h2, h0, (fun h => by cases h), h4, h5, h6⟩
 
 /-- a chunk after a silent prefix (on both sides) is a chunk; strict if the prefix is not empty -/
-theorem Chunk.prefix {p q R b s S s0 S0 j0 i0} (hf : FSteps p s s0 [] j0) (hc : CSteps q S S0 i0)
-    (hout : S0.out = S.out) (hj : b = true → 1 ≤ j0) (h : Chunk p q R false s0 S0) :
-    Chunk p q R b s S := by
-  rcases h with ⟨j, s1, r, h1, h2, h3⟩ | ⟨j, s1, s', o, i, S', h1, h2, _, h4, h5, h6⟩
+theorem Chunk.prefix {p q R b c c0 μ s S s0 S0 j0 i0} (hf : FSteps p s s0 [] j0) (hc : CSteps q S S0 i0)
+    (hout : S0.out = S.out) (hj : b = true → 1 ≤ j0) (hi : c = true → 1 ≤ i0 ∨ c0 = true)
+    (h : Chunk p q R false c0 μ s0 S0) :
+    Chunk p q R b c μ s S := by
+  rcases h with ⟨j, s1, r, h1, h2, h3⟩ | ⟨j, s1, s', o, i, S', h1, h2, _, h3, h4, h5, h6⟩
   · refine .inl ⟨j0 + j, s1, r, by simpa using hf.trans h1, h2, fun hfin => ?_⟩
     obtain ⟨i, S1, r', g1, g2, g3, g4⟩ := h3 hfin
     exact ⟨i0 + i, S1, r', hc.trans g1, by rw [g2, hout], g3, g4⟩
-  · refine .inr ⟨j0 + j, s1, s', o, i0 + i, S', by simpa using hf.trans h1, h2, ?_, hc.trans h4,
+  · refine .inr ⟨j0 + j, s1, s', o, i0 + i, S', by simpa using hf.trans h1, h2, ?_, ?_, hc.trans h4,
       by rw [h5, hout], h6⟩
-    intro hb
-    have := hj hb
-    exact .inl (by omega)
+    · intro hb
+      have := hj hb
+      exact .inl (by omega)
+    · intro hcc
+      rcases hi hcc with h | h
+      · exact .inl (by omega)
+      · rcases h3 h with h | h
+        · exact .inl (by omega)
+        · exact .inr h
 
 theorem stepN_out_zero (q S) : (Core.stepN q 0 S).out = S.out := rfl
 
@@ -203,7 +226,7 @@ theorem chunkSim_forward {p q R} (hsim : ChunkSim p q R) :
   | _ n ih =>
     intro s S acc hR hout
     rcases hsim s S hR with ⟨j, s1, r, hf, hfin, hcore⟩ |
-      ⟨j, s1, s', o, i, S', hf, hlast, hstrict, hc, ho, hR'⟩
+      ⟨j, s1, s', o, i, S', hf, hlast, hstrict, hcpos, hc, ho, hR'⟩
     · by_cases hn : n ≤ j
       · rw [runFrom_short hf n hn acc]
         exact ⟨fun h => h.elim, 0, by simp [stepN_out_zero, hout]⟩
